@@ -8,7 +8,7 @@
    index-sum form of the lagged sums / biased autocovariance estimator. *)
 From Coq Require Import Reals.
 From Coquelicot Require Import Coquelicot.
-From V Require Import lib.Tree model.C19 proofs.C19 proofs.C19_real.
+From V Require Import lib.Tree model.C19 proofs.C19 proofs.C19_real gen.Gen_C19_kern proofs.C19_code.
 Open Scope Q_scope.
 
 (* the HLN statistic (signed square s): whenever V_hat is defined (positive), |s| * V_hat = mean^2 * factor and
@@ -127,3 +127,31 @@ Example C19_hyps_satisfiable : exists v, v_hat [2; 1; -3; -1; 0] (qmean [2; 1; -
 Proof. eexists. split. vm_compute. reflexivity. reflexivity. Qed.
 Example C19_stat_example : dm_stat_hln [2; 1; -3; -1; 0] 3 =x= XFin (- (1 # 9)).
 Proof. vm_compute. reflexivity. Qed.
+
+(* ---- regenerated from diebold_mariano_impl.py on every run (translator sites C19.hln, C19.ci) ---- *)
+(* the correction factor written in _hln_method_stat is HLN equation (9), for every series length n <> 0 and every h *)
+Theorem C19_code_hln_correction_is_model : forall n h : Q, ~ n == 0 ->
+  gen_hln_correction (XFin n) (XFin h) =x= XFin (hln_factor n h).
+Proof. exact gen_hln_correction_is_model. Qed.
+Print Assumptions C19_code_hln_correction_is_model.
+
+(* ... and is not a finite number for an empty series (the public function rejects h >= length first) *)
+Theorem C19_code_hln_correction_zero_length : forall h q : Q, ~ gen_hln_correction (XFin 0) (XFin h) =x= XFin q.
+Proof. exact gen_hln_correction_zero_length. Qed.
+Print Assumptions C19_code_hln_correction_zero_length.
+
+(* the ci_upper / ci_lower expressions of the returned Dataset are the model's interval formulas *)
+Theorem C19_code_ci_upper_is_model : forall m q s, gen_dm_ci_upper m q s = ci_upper_m m q s.
+Proof. exact gen_dm_ci_upper_is_model. Qed.
+Print Assumptions C19_code_ci_upper_is_model.
+
+Theorem C19_code_ci_lower_is_model : forall m q s, gen_dm_ci_lower m q s = ci_lower_m m q s.
+Proof. exact gen_dm_ci_lower_is_model. Qed.
+Print Assumptions C19_code_ci_lower_is_model.
+
+(* hence the bracketing theorem, stated of the regenerated expressions *)
+Theorem C19_code_ci_brackets_mean : forall m q s, 0 < q -> 0 < m * s ->
+  exists lo up, gen_dm_ci_lower (XFin m) (XFin q) (XFin s) = XFin lo /\ gen_dm_ci_upper (XFin m) (XFin q) (XFin s) = XFin up
+    /\ lo <= m <= up /\ up - m == q * Qabs (m / s) /\ m - lo == q * Qabs (m / s).
+Proof. exact gen_ci_brackets_mean. Qed.
+Print Assumptions C19_code_ci_brackets_mean.
